@@ -5,12 +5,15 @@
         -> <out> L=<locks> S=<steps>
     f <fixed:0|1> <haskey:0|1> <versionreceived:0|1> <magic> <wire>
         -> <out> L=<locks> S=<steps>
+    b <guard:0|1> <raw block> -> ok <number of transactions> | reject <why>   (BuildTxListExt, Model/NetParseState.lean)
+    m <n>                    -> ok | panic      (the last index of CalcMerkle on n hashes)
     max <cmd-ascii>          -> ok <maxmsgsize as regenerated from core.go>
     txsize <bytes>           -> ok <n>
   <out> = ok <tag> <n1,n2,..|-> <blob1,blob2,..|-> | reject <reason> | panic <site with _ for spaces>
 -/
 import GocoinV.Model.NetParse
 import GocoinV.Model.Wire
+import GocoinV.Model.NetParseState
 import GocoinV.Gen.NetFacts
 import GocoinV.Base.Sha256
 import GocoinV.Base.Proto
@@ -61,6 +64,18 @@ def step (_ : Unit) (toks : List String) : Unit × String :=
                             checksum := fun b => (sha256d b).take 4, hasKey := hk == "1", versionReceived := vr == "1" }
       ((), showRes (fetchMessageG (fx == "1") E w))
     | _, _ => bad
+  | ["b", g, raw] =>
+    -- BuildTxListExt on a block object made from the header, Raw assigned afterwards (Model/NetParseState.lean)
+    match bit? g, Hex.decode raw with
+    | some g, some raw =>
+      match State.buildTxList g (fun b => (Wire.decodeTx b).map (·.2)) raw with
+      | .ok n => ((), s!"ok {n}")
+      | .error e => ((), s!"reject {e.replace " " "-"}")
+    | _, _ => bad
+  | ["m", n] =>
+    match n.toNat? with
+    | some n => ((), match State.merkleLast n with | some _ => "ok" | none => "panic")
+    | none => bad
   | ["max", cmd] => ((), s!"ok {Gen.NetFacts.maxMsgSize cmd}")
   | ["txsize", b] =>
     match Hex.decode b with
